@@ -373,7 +373,7 @@ int send_envelope(const unsigned int recodeflag, const char *sender, int rcptcou
 
 static void run_case(int nf, struct field *f)
 {
-	if (nf < 3 || f[0].len != 1 || f[0].p[0] != 0xc8 || f[1].len != 1 || f[2].len != 1 || f[2].p[0] > MAXCONN) { out_str("BADCASE"); return; }
+	if (nf < 3 || f[0].len != 1 || f[0].p[0] != 0xc8 || f[1].len != 1 || f[2].len != 1 || f[2].p[0] > MAXCONN || f[2].p[0] < 1) { out_str("BADCASE"); return; }
 	c_n = f[2].p[0];
 	int at = 3;
 	for (int i = 0; i < c_n; i++) {
